@@ -1,0 +1,22 @@
+//go:build verif
+
+package smtp
+
+// Verification hooks. This file is compiled only with the "verif" build tag;
+// normal builds get the empty stubs in hooks_noverif.go.
+
+var verifBdatStartHook func()
+
+// SetVerifBdatStartHook installs a function that the goroutine delivering a
+// chunked (BDAT) message calls before it hands the message to the backend. A
+// test harness uses it to decide when that goroutine starts relative to the
+// command loop. It must be set before the server starts serving.
+func SetVerifBdatStartHook(f func()) {
+	verifBdatStartHook = f
+}
+
+func verifBdatStart() {
+	if h := verifBdatStartHook; h != nil {
+		h()
+	}
+}
